@@ -38,8 +38,9 @@ def arm_binds(arm):
     return out
 
 
-def emissions(node):
-    """(call node, block variable name, cond stack, inside_dummy) for every emit_tokens(&X.inner) under node"""
+def emissions(node, fx=None):
+    """(call node, block variable name, cond stack, inside_dummy) for every emit_tokens(&X.inner) under node; with `fx`, a call of a CodegenContext
+    helper whose body emits the `inner` of its block parameter only inside with_dummy_segment counts as such an emission of the argument"""
     out = []
 
     def rec(n, conds, dummy):
@@ -62,6 +63,17 @@ def emissions(node):
                 if isinstance(v, (dict, list)):
                     rec(v, conds, True)
             return
+        if fx is not None and k in ("mcall", "call") and str(lib.hcallee(n) or "").startswith("mos_core::codegen::CodegenContext::") and \
+                not lib.pm(lib.hcallee(n), "CodegenContext::emit_tokens") and not lib.pm(lib.hcallee(n), "CodegenContext::with_scope"):
+            g = fx.fn(lib.hcallee(n))
+            if g is not None and g.d.get("hir"):
+                inner = emissions(g.hir["body"])
+                params = [q.get("name") for q in (g.hir.get("params") or []) if q.get("k") == "bind"]
+                if inner and all(d_ for _, _, _, d_ in inner) and all(v_ in params for _, v_, _, _ in inner):
+                    for _, v_, _, _ in inner:
+                        a = lib.hargs(n)[params.index(v_)] if params.index(v_) < len(lib.hargs(n)) else None
+                        d = lib.hdesc(a) if a is not None else ("?",)
+                        out.append((n, d[1] if d[0] == "v" else None, list(conds), True))
         if k == "if":
             rec(n["cond"], conds, dummy)
             rec(n["then"], conds + [("then", n["cond"])], dummy)
@@ -119,7 +131,7 @@ def r71(ctx, fx, et):
                 v = not v
             res = v
         return res
-    ems = emissions(arm["body"])
+    ems = emissions(arm["body"], fx)
     seen = {"if": 0, "else": 0}
     for call, var, conds, dummy in ems:
         var = alias.get(var, var)
@@ -141,6 +153,25 @@ def r71(ctx, fx, et):
                 ctx.finding(rid, key, "the `%s` block of `.if` is really emitted %s: the selected branch is not the one the condition selects" % (
                     which, "when the condition is zero" if which == "if" else "when the condition is non-zero" if p else "unconditionally"),
                     "%s:%s" % (et.file, call.get("ln")))
+    # what the branch that is not taken defines must not be seen by the rest of the program (regression guard): its analysis runs inside a with_scope
+    for call, var, conds, dummy in ems:
+        if not dummy:
+            continue
+        var = alias.get(var, var)
+        which = "if" if var == if_var else "else"
+        key = "%s|If|%s|dummy-scope" % (et.path, which)
+        g = fx.fn(lib.hcallee(call)) if not lib.pm(lib.hcallee(call), "CodegenContext::emit_tokens") else None
+        body = g.hir["body"] if g is not None and g.d.get("hir") else arm["body"]
+        scoped = False
+        for w in lib.hwalk(body):
+            if w.get("k") in ("mcall", "call") and lib.pm(lib.hcallee(w), "CodegenContext::with_scope") and \
+                    any(True for _ in lib.hir_calls(w, "CodegenContext::emit_tokens")):
+                scoped = True
+        ctx.inst(rid, key, sample={"block": which, "analysed_in_a_scope_of_its_own": scoped})
+        if not scoped:
+            ctx.finding(rid, key, "the %s block that is not taken is analysed in the scope of the `.if` itself: what it defines shadows the definitions the build uses "
+                        "(go-to-definition leads into the branch that is not assembled) and collides with the other branch (`cannot redefine symbol` in the "
+                        "editor for a program that builds)" % which, "%s:%s" % (et.file, call.get("ln")))
     for which in ("if", "else"):
         if not any(True for c, v, cs, d in ems if (alias.get(v, v) == (if_var if which == "if" else else_var)) and not d):
             ctx.finding(rid, "%s|If|%s|missing" % (et.path, which), "the `%s` block of `.if` is never emitted" % which, et.where)
